@@ -1,5 +1,6 @@
 import TpmProofs.MsgSound
 import TpmProofs.BE
+import TpmModel.Relax
 /-!
 # Warn mode = the lenient field-by-field interpretation + one warning after each offending field (C08, value-only clause)
 
@@ -15,27 +16,6 @@ Proved as a simulation: `Q s s'` relates a warn-mode state `s` and a lenient-str
 `s'.out` = `s.out` without value warnings); `Sim r r'`: if the lenient run `r'` succeeds so does the warn-mode run `r`, with the
 same value, in related states.
 -/
-
-def Prim.relax (p : Prim) : Prim :=
-  { p with valid := [.range (-((2 ^ (8 * p.size) : Nat) : Int)) ((2 ^ (8 * p.size) : Nat) : Int)] }
-
-mutual
-def Ty.relax : Ty → Ty
-  | .prim p => .prim p.relax
-  | .struct n isP fs => .struct n isP fs.relax
-  | .tpm2bBytes n szN szP bufN elem => .tpm2bBytes n szN szP.relax bufN elem.relax
-  | .tpm2b n szN szP bufN body => .tpm2b n szN szP.relax bufN body.relax
-  | .union n arms => .union n arms.relax
-  | .bad r => .bad r
-def Fields.relax : Fields → Fields
-  | .nil => .nil
-  | .cons f k t rest => .cons f k t.relax rest.relax
-def Arms.relax : Arms → Arms
-  | .nil => .nil
-  | .consNone an key rest => .consNone an key rest.relax
-  | .cons an key t rest => .cons an key t.relax rest.relax
-  | .consBytes an key elem n rest => .consBytes an key elem.relax n rest.relax
-end
 
 theorem relax_valid (p : Prim) (bs : List Byte) (h : bs.length = p.size) : p.relax.isValid (p.relax.ofBytes bs) = true := by
   have hlt := fromBE_lt bs
@@ -317,16 +297,6 @@ theorem fields_sim : (fs : Fields) → ∀ (path : Path) (vals : List (String ×
 end
 
 /-! ## messages -/
-
-def relaxMap (m : List (Int × Ty)) : List (Int × Ty) := m.map fun kt => (kt.1, kt.2.relax)
-
-def MsgTables.relax (tb : MsgTables) : MsgTables :=
-  { tb with
-    tagCmd := tb.tagCmd.relax, cmdSize := tb.cmdSize.relax, cc := tb.cc.relax, authSize := tb.authSize.relax,
-    authCmd := tb.authCmd.relax, tagRsp := tb.tagRsp.relax, rspSize := tb.rspSize.relax, rc := tb.rc.relax,
-    paramSize := tb.paramSize.relax, authRsp := tb.authRsp.relax,
-    cmdHandles := relaxMap tb.cmdHandles, cmdParams := relaxMap tb.cmdParams,
-    rspHandles := relaxMap tb.rspHandles, rspParams := relaxMap tb.rspParams, encParam := tb.encParam.relax }
 
 theorem lookupTy_relax (m : List (Int × Ty)) (k : Int) : lookupTy (relaxMap m) k = (lookupTy m k).map Ty.relax := by
   unfold lookupTy relaxMap
@@ -647,12 +617,6 @@ theorem decodeStream_sim (tb : MsgTables) (path : Path) : ∀ (fuel : Nat) (s s'
         split
         · exact Sim.ok _ (q1.em _)
         · exact (decodeResponse_sim tb _ _ path q1).bind fun _ s2 s2' q2 => ih s2 s2' q2
-
-def Top.relax : Top → Top
-  | .ty t => .ty t.relax
-  | .command => .command
-  | .response cc enc => .response cc enc
-  | .stream => .stream
 
 /-- **warn mode vs the lenient interpretation** (any tables, every layout, commands, responses, streams, EVERY input): whenever
 strict decoding under the relaxed tables accepts the input, warn-mode decoding under the real tables returns the same object,
